@@ -670,12 +670,12 @@ def oracle_truthy(v, line, F, stats):
 
 def gen_cases(rng, tier):
     q = tier == "quick"
-    n_pairs = 40000 if q else 420000
-    n_triples = 20000 if q else 200000
-    n_sort = 2000 if q else 30000
-    n_sets = 1500 if q else 20000
-    n_cont = 4000 if q else 50000
-    n_truthy = 1500 if q else 10000
+    n_pairs = 40000 if q else 1200000
+    n_triples = 20000 if q else 600000
+    n_sort = 2000 if q else 60000
+    n_sets = 1500 if q else 40000
+    n_cont = 4000 if q else 120000
+    n_truthy = 1500 if q else 20000
     script_every = 8 if q else 12
     cases = []   # (kind, values, meta)
 
@@ -881,6 +881,11 @@ def run(res):
                       nofail=True, tag="build")
         return
     proved = C.prove(res, PROP)
+    if proved and tier == "thorough":
+        # independent re-check of the compiled proofs
+        if not C.coqchk(res, PROP):
+            proved = False
+            res.broken = {"log_tail": res.coverage.get("coqchk", {}).get("tail", ""), "errors": []}
     model, err = C.build_extracted("ops", "ExtractOps.v", "ops_driver.ml")
     if not model:
         res.violation({"property": PROP, "kind": "model-build-failed", "stage": "extraction", "log": err[-3000:],
